@@ -10,6 +10,7 @@ Answer:   `model=<model output> holds=<0|1>`
                                     (only possible for rows under a finding exclusion: `Gen.excluded`)
         model=protected:<field>     the table has rows of one field at both sites but claims a common lock: table wrong
         model=unmapped              no field of the table is accessed at both sites: table incomplete
+        (model=unprotected:<field> also when one of the two sites holds a row that is unprotected against itself)
 The reference side is the table the theorems of Props/C10.lean are about (`Gen.groups`, `Gen.excluded`)
 and `Lockset.pairOk`; the monitor is "no data race reported".
 -/
@@ -43,7 +44,12 @@ def classify (l1 l2 : String) : String :=
       -- same field at both sites but read/read in the table (e.g. the detector saw a write the table calls a read)
       match (r1.flatMap fun a => (r2.filter fun b => a.field == b.field).map fun b => (a, b)).head? with
       | some p => s!"protected:{fieldName p.1.field}"
-      | none => "unmapped"
+      | none =>
+        -- one-sided: a row at one of the sites that is unprotected even against itself (e.g. a write to the
+        -- pointee of a published slice) races with whatever reads that memory, tabulated or not
+        match (r1 ++ r2).find? (fun a => !pairOk a a) with
+        | some a => s!"unprotected:{fieldName a.field}"
+        | none => "unmapped"
 
 def step (line : String) : String :=
   match line.splitOn " => " with
